@@ -77,6 +77,8 @@ def transition_sites(prog: Program):
     """(qname, lineno, target state name or '?') for every call `<x>.transition(...)`"""
     out = []
     for q, fn in prog.funcs.items():
+        if q in getattr(prog, "synthetic", ()):
+            continue
         for n in ast.walk(fn):
             if isinstance(n, ast.Call) and isinstance(n.func, ast.Attribute) and n.func.attr == "transition":
                 args = list(n.args) + [k.value for k in n.keywords]
@@ -102,6 +104,8 @@ def scan_transitions(prog: Program, allowed: dict[str, set[str]], tags=()):
 def scan_constructions(prog: Program, cls: str, allowed_modules: set[str], tags=()):
     bad = []
     for q, fn in prog.funcs.items():
+        if q in getattr(prog, "synthetic", ()):
+            continue
         for n in ast.walk(fn):
             if isinstance(n, ast.Call) and isinstance(n.func, ast.Name) and n.func.id == cls:
                 if q.split(":")[0] not in allowed_modules:
@@ -124,7 +128,7 @@ def scan_immutables(prog: Program, spec, tags=()):
     fresh_makers = (ast.List, ast.Dict, ast.Set, ast.ListComp, ast.DictComp, ast.SetComp)
     for mod, tree in prog.modules.items():
         for q, fn in prog.funcs.items():
-            if not q.startswith(mod + ":"):
+            if not q.startswith(mod + ":") or q in getattr(prog, "synthetic", ()):
                 continue
             name = q.split(":")[1]
             cls = name.split(".")[0] if "." in name else None
